@@ -35,6 +35,9 @@ def xfunc(*args, func=max, check=is_number, convert=None, default=0,
           _raise=True):
     _raise and raise_errors(args)
     it = flatten(map(_convert_args, args), check=check)
+    if check is is_number:
+        # Numeric text inside arrays counts as its number (as in SUM).
+        it = (float(v) if isinstance(v, str) else v for v in it)
     default = [] if default is None else [default]
     return func(list(map(convert, it) if convert else it) or default)
 
